@@ -369,6 +369,155 @@ theorem compact_loop0 {σ ρ φ : Type} (proj : σ → IndexedSet.St α) (frame 
   have := compact_loop proj frame bind body keep hk1 hk2 hbody items [] [] m fuel t hf (by simpa using hl) hi
   simpa using this
 
+/-! ### the two loops of `_cull` -/
+
+theorem takeWhile_pos {β : Type} (p : β → Bool) : ∀ (R : List β) (k : Nat), k < (R.takeWhile p).length →
+    ∃ x, R[k]? = some x ∧ p x = true
+  | [], k, h => by simp at h
+  | y :: R, k, h => by
+    by_cases hp : p y = true
+    · simp only [List.takeWhile_cons, hp, if_true, List.length_cons] at h
+      cases k with
+      | zero => exact ⟨y, rfl, hp⟩
+      | succ k => simpa using takeWhile_pos p R k (by omega)
+    · simp [List.takeWhile_cons, hp] at h
+
+theorem takeWhile_stop {β : Type} (p : β → Bool) : ∀ (R : List β), (R.takeWhile p).length < R.length →
+    ∃ x, R[(R.takeWhile p).length]? = some x ∧ p x = false
+  | [], h => by simp at h
+  | y :: R, h => by
+    by_cases hp : p y = true
+    · simp only [List.takeWhile_cons, hp, if_true, List.length_cons] at h ⊢
+      simpa using takeWhile_stop p R (by omega)
+    · simp only [List.takeWhile_cons, hp]
+      exact ⟨y, rfl, by simpa using hp⟩
+
+/-- the slot `k` from the end -/
+theorem index?_from_end (items : List (Option α)) (k : Nat) (hk : k < items.length) :
+    PyRt.index? (items.map ofItem) (-((k : Int) + 1)) = .ok (ofItem (items.reverse[k]?.getD none)) := by
+  unfold PyRt.index? PyRt.normIdx
+  have h1 : (-((k : Int) + 1)) < 0 := by omega
+  simp only [h1, if_true, List.length_map]
+  have h2 : ¬ (-((k : Int) + 1) + (items.length : Int) < 0) := by omega
+  have h3 : (-((k : Int) + 1) + (items.length : Int)).toNat = items.length - 1 - k := by omega
+  rw [if_neg h2, h3, List.getElem?_map, List.getElem?_reverse hk]
+  have : items.length - 1 - k < items.length := by omega
+  simp [List.getElem?_eq_getElem this]
+
+/-- the loop `while items[-(num_dead + 1)] is _MISSING: num_dead += 1` -/
+theorem tail_loop {σ ρ φ : Type} (L : σ → List (Val α Unit)) (n : σ → Int) (frame : σ → φ)
+    (c : σ → Except PyExc Bool) (body : Stmt σ ρ)
+    (hc : ∀ t, c t = bx (PyRt.index? (L t) (-(n t + 1))) (fun v => .ok (Val.isSentinel v)))
+    (hb : ∀ t, ∃ t', body t = (.next, t') ∧ L t' = L t ∧ n t' = n t + 1 ∧ frame t' = frame t)
+    (items : List (Option α)) (htd : trailingDead items < items.length) :
+    ∀ (fuel k : Nat) (t : σ), L t = items.map ofItem → n t = (k : Int) → k ≤ trailingDead items →
+      trailingDead items - k < fuel →
+      ∃ t', whileLoop c body fuel t = (.next, t') ∧ L t' = L t ∧ n t' = (trailingDead items : Int) ∧
+        frame t' = frame t := by
+  intro fuel
+  induction fuel with
+  | zero => intro k t _ _ _ h; omega
+  | succ f ih =>
+    intro k t hL hn hk hf
+    have hidx := index?_from_end items k (by omega)
+    simp only [whileLoop, hc, hL, hn, hidx, bx_ok]
+    by_cases hlt : k < trailingDead items
+    · obtain ⟨x, hx1, hx2⟩ := takeWhile_pos isTomb items.reverse k hlt
+      cases x with
+      | some y => simp [isTomb] at hx2
+      | none =>
+        obtain ⟨t1, hb1, hb2, hb3, hb4⟩ := hb t
+        obtain ⟨t', h1, h2, h3, h4⟩ := ih (k + 1) t1 (hb2.trans hL) (by rw [hb3, hn]; simp) (by omega) (by omega)
+        refine ⟨t', ?_, (h2.trans hb2).trans hL, h3, h4.trans hb4⟩
+        simp [hx1, ofItem, Val.isSentinel, hb1, h1]
+    · have hk2 : k = trailingDead items := by omega
+      obtain ⟨x, hx1, hx2⟩ := takeWhile_stop isTomb items.reverse (by simpa [trailingDead] using htd)
+      refine ⟨t, ?_, hL, by rw [hn, hk2], rfl⟩
+      subst hk2
+      cases x with
+      | none => simp [isTomb] at hx2
+      | some y =>
+        unfold trailingDead
+        simp [hx1, ofItem, Val.isSentinel]
+
+theorem nil_or_snoc {β : Type} (l : List β) : l = [] ∨ ∃ L b, l = L ++ [b] := by
+  cases h : l.reverse with
+  | nil => left; simpa using h
+  | cons b L =>
+    right
+    refine ⟨L.reverse, b, ?_⟩
+    have := congrArg List.reverse h
+    simpa using this
+
+theorem popDeadFrom_snoc (d : List (Nat × Nat)) (p : Nat × Nat) (n : Nat) :
+    popDeadFrom (d ++ [p]) n = if n ≤ p.1 then popDeadFrom d n else d ++ [p] := by
+  simp only [popDeadFrom, List.reverse_append, List.reverse_cons, List.reverse_nil, List.nil_append,
+    List.singleton_append, List.dropWhile_cons, startsAtOrAfter, decide_eq_true_eq]
+  split <;> simp
+
+theorem index?_last {β : Type} (L : List β) (x : β) : PyRt.index? (L ++ [x]) (-1) = .ok x := by
+  unfold PyRt.index? PyRt.normIdx
+  have h2 : (-1 + ((L ++ [x]).length : Int)).toNat = L.length := by simp; omega
+  have h3 : ¬ (-1 + ((L ++ [x]).length : Int) < 0) := by simp; omega
+  simp only [show ((-1 : Int) < 0) from by omega, if_true, h2, if_neg h3]
+  simp
+
+theorem delIdx?_last {β : Type} (L : List β) (x : β) : delIdx? (L ++ [x]) (-1) = .ok L := by
+  unfold delIdx? PyRt.normIdx
+  have h2 : (-1 + ((L ++ [x]).length : Int)).toNat = L.length := by simp; omega
+  have h3 : 0 ≤ (-1 + ((L ++ [x]).length : Int)) ∧ (-1 + ((L ++ [x]).length : Int)) < ((L ++ [x]).length : Int) := by
+    simp; omega
+  simp only [show ((-1 : Int) < 0) from by omega, if_true, h2, if_pos h3]
+  simp [List.eraseIdx_append_of_length_le]
+
+/-- the loop `while ded and ded[-1][0] >= len(items): del ded[-1]` -/
+theorem dead_loop {σ ρ : Type} (H : σ → Heap α Unit) (D : σ → List (Val α Unit)) (N : σ → Int)
+    (c : σ → Except PyExc Bool) (body : Stmt σ ρ)
+    (hc : ∀ t, c t = andE (.ok (!(D t).isEmpty)) (bx (bx (PyRt.index? (D t) (-1)) (fun v => Heap.get? (H t) v 0))
+      (fun v7 => bx (asInt? v7) (fun v8 => .ok (decide (v8 ≥ N t))))))
+    (hb : ∀ t L x, D t = L ++ [x] → ∃ t', body t = (.next, t') ∧ D t' = L ∧ H t' = H t ∧ N t' = N t) (n : Nat) :
+    ∀ (fuel : Nat) (addrs : List Nat) (dead : List (Nat × Nat)) (t : σ), D t = addrs.map Val.ref →
+      addrs.map (H t).cell = dead.map ivCell → N t = (n : Int) → dead.length < fuel →
+      ∃ t' m, whileLoop c body fuel t = (.next, t') ∧ D t' = (addrs.take m).map Val.ref ∧ m ≤ dead.length ∧
+        popDeadFrom dead n = dead.take m ∧ H t' = H t ∧ N t' = N t := by
+  intro fuel
+  induction fuel with
+  | zero => intro _ _ _ _ _ _ h; omega
+  | succ f ih =>
+    intro addrs dead t hD hcells hN hf
+    have hlen : addrs.length = dead.length := by simpa using congrArg List.length hcells
+    rcases nil_or_snoc addrs with rfl | ⟨A, a, rfl⟩
+    · have : dead = [] := by cases dead with | nil => rfl | cons _ _ => simp at hlen
+      subst this
+      refine ⟨t, 0, ?_, by simpa using hD, Nat.le_refl _, by simp [popDeadFrom], rfl, rfl⟩
+      simp [whileLoop, hc, hD, andE]
+    · rcases nil_or_snoc dead with rfl | ⟨d', p, rfl⟩
+      · simp at hlen
+      · simp only [List.map_append, List.map_cons, List.map_nil] at hcells hD
+        have hl2 : (A.map (H t).cell).length = (d'.map (ivCell (κ := α))).length := by simp at hlen ⊢; omega
+        obtain ⟨hc1, hc2⟩ := List.append_inj hcells hl2
+        have hca : (H t).cell a = ivCell p := by simpa using hc2
+        have hcond : c t = .ok (decide (n ≤ p.1)) := by
+          rw [hc, hD]
+          have hne : (List.map (Val.ref (κ := α) (ν := Unit)) A ++ [Val.ref a]).isEmpty = false := by
+            cases A <;> rfl
+          have hi0 : PyRt.index? [Val.int (p.1 : Int), Val.int (p.2 : Int)] 0
+              = .ok (Val.int (p.1 : Int) : Val α Unit) := rfl
+          simp only [andE, hne, Bool.not_false, bx_ok, if_true, index?_last, Heap.get?, hca, ivCell, hN, hi0, asInt?]
+          simp
+        by_cases hge : n ≤ p.1
+        · obtain ⟨t1, hb1, hb2, hb3, hb4⟩ := hb t _ _ hD
+          obtain ⟨t', m, h1, h2, h3, h4, h5, h6⟩ := ih A d' t1 hb2 (by rw [hb3]; exact hc1) (by rw [hb4, hN])
+            (by simp at hf; omega)
+          refine ⟨t', m, ?_, ?_, by simp; omega, ?_, h5.trans hb3, h6.trans hb4⟩
+          · simp [whileLoop, hcond, hge, hb1, h1]
+          · rw [h2, List.take_append_of_le_length (by simp at hlen; omega)]
+          · rw [popDeadFrom_snoc, if_pos hge, h4, List.take_append_of_le_length h3]
+        · refine ⟨t, (d' ++ [p]).length, ?_, ?_, Nat.le_refl _, ?_, rfl, rfl⟩
+          · simp [whileLoop, hcond, hge]
+          · rw [hD, ← hlen, ← List.map_singleton (f := Val.ref), ← List.map_append, List.take_length]
+          · rw [popDeadFrom_snoc, if_neg hge, List.take_length]
+
 end RepSec
 
 end C11
